@@ -371,15 +371,29 @@ def run_tasks(sc):
                 opened = [e for e in log if e[0] == "B"][-1]
                 if not [e for e in log if e[0] == "E" and e[1:] == opened[1:]]:
                     log.append(("E", opened[1], opened[2]))       # its block ends here
-                owner = owners[id(fut)]
-                owner.cancel()
+                # (at quiescence the only sender task that is not finished is the one draining the queue; the
+                # callback itself may run in a task of the library's own making, so it is the SENDER that is cancelled)
+                pend = [t for t in tasks if not t.done()]
+                for t in (pend or [owners[id(fut)]]):
+                    t.cancel()
                 for _ in range(30):                                # let the cancellation unwind the drainer
                     await asyncio.sleep(0)
                 extra.append(asyncio.ensure_future(flush(sm)))
+                if not fut.done():
+                    parked.append(fut)       # somebody is still waiting on the gate of the cancelled callback
                 continue
             fut.set_result(None)
         for t in tasks + extra:
             await asyncio.wait_for(t, 5)
+        # nothing of a cancelled event may go on running behind the back of the machine: open whatever gates are
+        # still waiting and give detached work (if any) the chance to show itself
+        for _ in range(20):
+            while parked:
+                fut = parked.pop()
+                if not fut.done():
+                    fut.set_result(None)
+            for _ in range(10):
+                await asyncio.sleep(0)
         return sm
     sm = asyncio.run(main())
     begins = [(e[1], e[2]) for e in log if e[0] == "B"]
